@@ -491,6 +491,8 @@ func c03AfterConflict(p *Prog, r *Report) {
 	if fi == nil {
 		return
 	}
+	// (the draining, the deferred hand-over and the named results may live one layer down: commitLocked)
+	fi = p.drainRoot(fi)
 	info := fi.Pkg.TypesInfo
 	f := p.FlatInlExcept(fi, kStoreToTx)
 	// conflict assignment nodes
@@ -673,7 +675,11 @@ func c03AfterConflict(p *Prog, r *Report) {
 						continue
 					}
 					if !C[lp] {
-						okFail, badFail = false, p.pos(rs)+" (without "+lp[:strings.Index(lp+"@", "@")]+lp[strings.LastIndex(lp, "."):]+")"
+						name := lp[:strings.Index(lp+"@", "@")]
+						if i := strings.LastIndex(lp, "."); i >= 0 {
+							name += lp[i:]
+						}
+						okFail, badFail = false, p.pos(rs)+" (without "+name+")"
 					}
 				}
 			}
@@ -981,4 +987,48 @@ func (p *Prog) deepBodies(fi *FuncInfo) []*ast.BlockStmt {
 		frontier = next
 	}
 	return res
+}
+
+// drainRoot: the function that takes the versions out of the per-key lists. Usually fi itself; when fi only
+// prepares (registry, locks) and hands over to a helper of the package that holds the pop loops, that helper.
+func (p *Prog) drainRoot(fi *FuncInfo) *FuncInfo {
+	pops := func(g *FuncInfo) bool {
+		found := false
+		walkNoLit(g.Decl.Body, func(x ast.Node) bool {
+			if c, ok := x.(*ast.CallExpr); ok && p.callIs(g.Pkg, c, "(*internal/model/core.file).PopBack", "(*internal/model/core.file).PopFront") {
+				found = true
+			}
+			return !found
+		})
+		return found
+	}
+	if pops(fi) {
+		return fi
+	}
+	seen := map[string]bool{fi.Key: true}
+	frontier := []*FuncInfo{fi}
+	for depth := 0; depth < 2; depth++ {
+		var next []*FuncInfo
+		for _, g := range frontier {
+			var hit *FuncInfo
+			walkNoLit(g.Decl.Body, func(x ast.Node) bool {
+				if c, ok := x.(*ast.CallExpr); ok && hit == nil {
+					if h := p.staticCallee(g.Pkg, c); h != nil && h.Pkg == fi.Pkg && !seen[h.Key] && h.Decl.Body != nil {
+						seen[h.Key] = true
+						if pops(h) {
+							hit = h
+						} else {
+							next = append(next, h)
+						}
+					}
+				}
+				return true
+			})
+			if hit != nil {
+				return hit
+			}
+		}
+		frontier = next
+	}
+	return fi
 }
